@@ -43,6 +43,8 @@ def tensor_attr(it, tv, attr, node):
         return g if g is not None else VConst(None)
     if attr == "_version":
         return VNum("int", T.sym("ver:T%d:%d" % (tv.obj.id, tv.obj.version)), nonneg=True)
+    if attr == "device" and getattr(tv.obj.dtype_root(), "device_val", None) is not None:
+        return tv.obj.dtype_root().device_val
     if attr in ("dtype", "device", "layout"):
         u = VUnknown("%s(T%d)" % (attr, tv.obj.dtype_root().id), attr)
         u.not_none = True
